@@ -3,3 +3,5 @@ import Proofs.C16
 #print axioms C16.widths_fit_margin
 #print axioms C16.widths_fit_format
 #print axioms C16.widths_fit_prefix_counterexample
+#print axioms C16.keyheader_partition
+#print axioms C16.keyheader_level_cover
